@@ -125,6 +125,11 @@ class World:
         if self.cfg["backend"] == "memory":
             snap = spyfs.snapshot_memory(self.ctl.state, "/")
         else:
+            for h in self.ctl.open_handles():  # buffered writes become visible (no semantic effect)
+                try:
+                    h.file.flush()
+                except Exception:
+                    pass
             snap = spyfs.snapshot_fs(self.root)
         d = sorted([list(k) for k, v in snap.items() if v[0] == "d"])
         f = sorted(({"p": list(k), "c": list(v[1])} for k, v in snap.items() if v[0] == "f"), key=lambda x: x["p"])
